@@ -926,6 +926,74 @@ theorem chanPop_W {cfg : Cfg} (hk : cfg.popSkipsStaleWriter = true) {w : World} 
         exact hliveIn1 c'
       · rw [hw']; exact hff
 
+/-- the supervisor push of the run phase (mode 2, no running fiber): only drops stale readers, or hands the event to a
+    live reader and schedules it -/
+theorem supPush_W {cfg : Cfg} (hs : cfg.pushBlocksStrict = true) {w : World} {c x : Nat} (hi : WInv w)
+    (hcur : w.current = none) : WInv (supPush cfg w c x).1 := by
+  obtain ⟨hm, hqq⟩ := hi
+  unfold supPush
+  cases hp : chanPush cfg w 0 c x 2 with
+  | closedErr => exact ⟨hm, hqq⟩
+  | ok w' b =>
+    simp only []
+    obtain ⟨htm, hcur'⟩ := chanPush_misc cfg w 0 c x 2 w' b hp
+    obtain ⟨_, _, hoth, hcase⟩ := chanPush_cases cfg hs w 0 c x 2 w' b hp
+    refine ⟨?_, fun g hg => by rw [hcur', hcur] at hg; cases hg⟩
+    have hento : ∀ c', c' ≠ c → w'.ent c' = w.ent c' := by
+      intro c' hc'; unfold World.ent; rw [hoth c' hc']
+    rcases hcase with ⟨hno, hfib, hrq, _, _, hrp, _, _, _, hwp⟩ | ⟨r, rest, hq, _, _, hw'⟩
+    · have hentc : ∀ q, q ∈ w'.ent c ↔ q ∈ (w.chans c).writePending := by
+        intro q; rw [mem_ent, hrp, hwp]; simp
+      unfold WM; rw [hfib, hrq, htm, hcur']
+      apply M_shrink hm
+      · intro c' p hp'
+        by_cases e : c' = c
+        · subst e; exact (mem_ent w c' p).mpr (Or.inr ((hentc p).mp hp'))
+        · rw [hento c' e] at hp'; exact hp'
+      · intro c' p hp' hnp
+        by_cases e : c' = c
+        · subst e
+          rcases (mem_ent w c' p).mp hp' with h | h
+          · exact not_live_of_hasLiveReader_false hno p h
+          · exact absurd ((hentc p).mpr h) hnp
+        · rw [hento c' e] at hnp; exact absurd hp' hnp
+    · have hspec := popLiveReader_spec w.fibers _ _ _ hq
+      obtain ⟨hrin, hrlive, _⟩ := hspec.2.2 r rfl
+      have hrs : r.sched = (w.fibers r.fiber).sched := (live_iff w.fibers r).mp hrlive
+      have hrent : r ∈ w.ent c := (mem_ent w c r).mpr (Or.inl hrin)
+      have hcan : (w.fibers r.fiber).canceled = false :=
+        not_canceled_of_liveEntry hm r.fiber (Or.inl ⟨c, r, hrent, rfl, hrs⟩)
+      let w1 := addHanded (setChan (addPushed w c x) c { (w.chans c) with readPending := rest }) c x
+      have hw1 : w' = scheduleGeneral w1 r.fiber (if r.mode = .choiceRead then .take c x else .num x) .ok false := hw'
+      have hent' : w'.ent = w1.ent := by rw [hw1]; unfold World.ent; rw [scheduleGeneral_chans]
+      have hw1c : ∀ p, p ∈ w1.ent c ↔ p ∈ rest ∨ p ∈ (w.chans c).writePending := by
+        intro p; rw [mem_ent]; simp [w1, addHanded, setChan]
+      have hw1o : ∀ c', c' ≠ c → w1.ent c' = w.ent c' := by
+        intro c' hc'; unfold World.ent; simp [w1, addHanded, setChan, addPushed, hc']
+      have hM : M (scheduleGeneral w1 r.fiber (if r.mode = .choiceRead then .take c x else .num x) .ok false).fibers
+          (scheduleGeneral w1 r.fiber (if r.mode = .choiceRead then .take c x else .num x) .ok false).runq w.timers w1.ent
+          (scheduleGeneral w1 r.fiber (if r.mode = .choiceRead then .take c x else .num x) .ok false).current := by
+        apply M_shrink_schedule (w := w1) (en := w.ent) r.fiber _ .ok hm
+        · intro c' p hp'
+          by_cases e : c' = c
+          · subst e
+            rcases (hw1c p).mp hp' with h | h
+            · exact (mem_ent w c' p).mpr (Or.inl (hspec.1 p h))
+            · exact (mem_ent w c' p).mpr (Or.inr h)
+          · rw [hw1o c' e] at hp'; exact hp'
+        · intro c' p hp' hnp
+          by_cases e : c' = c
+          · subst e
+            rcases (mem_ent w c' p).mp hp' with h | h
+            · have hnr : p ∉ rest := fun hin => hnp ((hw1c p).mpr (Or.inl hin))
+              rcases popLiveReader_removed w.fibers _ _ _ hq p h hnr with hl | hl
+              · left; intro e; rw [(live_iff w.fibers p).mpr e] at hl; cases hl
+              · right; injection hl with hl; rw [hl]
+            · exact absurd ((hw1c p).mpr (Or.inr h)) hnp
+          · rw [hw1o c' e] at hnp; exact absurd hp' hnp
+        · exact hcan
+      unfold WM; rw [htm, hent', hw1]; exact hM
+
 /-! ### select -/
 
 theorem liveEntry_of_liveIn {fb : Fibers} {en : Ent} {f c : Nat} (h : liveIn fb en f c) : liveEntry fb en f := ⟨c, h⟩
@@ -1615,6 +1683,7 @@ theorem step_W {cfg : Cfg} (hg : CfgGood cfg) (w : World) (a : Action) (hns : a.
     | timers => exact loopTimers_W ⟨hm, hqq⟩ hcur
     | poll => exact loopPollDrop_W ⟨hm, hqq⟩ hcur
     | scopeEnd s => exact WInv_congr w _ rfl rfl rfl rfl hcur.symm ⟨hm, hqq⟩
+    | supEvent c x => exact supPush_W hg.strict ⟨hm, hqq⟩ hcur
     | _ => exact ⟨hm, hqq⟩
   | some f =>
     have hq : WQuiet w f := hqq f hcur
@@ -1628,6 +1697,7 @@ theorem step_W {cfg : Cfg} (hg : CfgGood cfg) (w : World) (a : Action) (hns : a.
     | runTask => exact ⟨hm, hqq⟩
     | timers => exact ⟨hm, hqq⟩
     | poll => exact ⟨hm, hqq⟩
+    | supEvent c x => exact ⟨hm, hqq⟩
     | scopeEnd s => exact WInv_congr w _ rfl rfl rfl rfl hcur.symm ⟨hm, hqq⟩
     | go g =>
       simp only []
